@@ -1,16 +1,19 @@
 /-
 Soundness of the thirteen registered binary rules (FuraxModel/Reduce.lean) from named leaf laws.
 
-**Why the statements are relativised.**  `Sem.RuleSound ru` quantifies over ALL pairs `l r`.  For the furax
-rules this is provably false, whatever the semantics: `InverseBinaryRule` fires on
+**Why the statements are relativised.**  Soundness over ALL pairs `l r` (`Sem.RuleSoundOn (fun _ => True) ru`)
+is provably false for the furax rules, whatever the semantics: `InverseBinaryRule` fires on
 `DiagonalInverseOperator(o), o` for every `o` with a Python identity and returns the empty chain, which is ill
 typed when `o` is not square (`inverseBinaryRule_not_RuleSound` below; nothing in `RuleLaws` can repair a
-purely structural mismatch).  The rules are only correct on operands that passed their constructors'
-validation.  That validation is the recursive predicate `WTExpr`, and the rules are proved sound relative to
-it (`Sem.RuleSoundOn`, FuraxProofs/Lemmas/ScanOn.lean): on `WTExpr` operands a firing rule returns `WTExpr`
+purely structural mismatch).  Soundness over all STRUCTURALLY well-formed pairs (`Sem.RuleSound`, i.e.
+`RuleSoundOn StructOK`) still fails in the intended semantics, for the lazy inverse of a singular operand
+(finding F13).  The rules are only correct on operands that passed their constructors' validation.  That
+validation is the recursive predicate `WTExpr`, and the rules are proved sound relative to it
+(`Sem.RuleSoundOn`, FuraxProofs/Lemmas/ScanOn.lean): on `WTExpr` operands a firing rule returns `WTExpr`
 operands forming a well-typed chain with the same denotation.
 
-* `WTExpr inv leafOK o` — recursive well-formedness of an expression;
+* `WTExpr inv leafOK o` — recursive well-formedness of an expression (FuraxProofs/Lemmas/WellFormed.lean; it
+  implies the structural well-formedness `StructOK` that guards the laws `honest` / `homogeneous` of `OpSem`);
 * `RuleLaws A` — the semantic leaf laws the rules rely on (discharged elsewhere, kernel by kernel);
 * `RedSound A laws red` — what the block rules need of the recursive `reduce` call;
 * `inverseBinaryRule_sound`, …, `linearPolarizerHWPRule_sound`, `binaryRules_sound`.
@@ -20,66 +23,10 @@ import FuraxProofs.Lemmas.ScanOn
 namespace Furax
 open Op
 
-/-! ### well-formed expressions -/
+/-! ### chains
 
-/-- `isinstance(·, AbstractLazyInverseOperator)` on the wrapper class -/
-def WrapCls.isLazy (k : WrapCls) : Prop := k = .inverse ∨ k = .qurotT ∨ k = .diagInv
-
-/-- adjacent structures of a chain match -/
-def Chain : List Op → Prop
-  | [] => True
-  | [_] => True
-  | a :: b :: rest => Op.inS a = Op.outS b ∧ Chain (b :: rest)
-
-/-- what the constructors of the wrapper classes guarantee of their operand:
-* a lazy inverse (`InverseOperator`, `QURotationTransposeOperator`, `DiagonalInverseOperator`) wraps a square
-  operand that is invertible (`inv`) — for `DiagonalInverseOperator` invertibility is **not** checked by furax:
-  this is the hypothesis finding F13 violates for a singular diagonal;
-* `QURotationTransposeOperator` wraps a `QURotationOperator`, `ReshapeTransposeOperator` a ravel/reshape
-  operator, `ToastObservationMatrixTransposeOperator` an observation matrix. -/
-def WrapOK (inv : Op → Prop) (k : WrapCls) (o : Op) : Prop :=
-  (k.isLazy → Op.inS o = Op.outS o ∧ inv o) ∧
-  (k = .qurotT → o.isQURot = true) ∧
-  (k = .reshapeT → o.isRavelOrReshape = true) ∧
-  (k = .obsT → o.isLeafCls .obsMatrix = true)
-
-/-- what the constructors of the container classes guarantee (`blockCtor`, `AdditionOperator`): one operand per
-leaf of the container, the operands of a sum share both structures, those of a block row their output
-structure, those of a block column their input structure -/
-def ContOK (k : ContCls) (td : TreeDef) (ops : List Op) : Prop :=
-  td.numLeaves = ops.length ∧
-  match k with
-  | .add => ∀ o ∈ ops, Op.inS o = inSHead ops ∧ Op.outS o = outSHead ops
-  | .blockRow => ∀ o ∈ ops, Op.outS o = outSHead ops
-  | .blockCol => ∀ o ∈ ops, Op.inS o = inSHead ops
-  | .blockDiag => True
-
-mutual
-/-- **Well-formed expressions**: every leaf passed its constructor's validation (`leafOK`, abstract: chosen by
-whoever discharges `RuleLaws`), every wrapper satisfies `WrapOK`, every composition is a non-empty chain with
-matching adjacent structures, every container is non-empty and satisfies `ContOK`; recursively. -/
-def WTExpr (inv : Op → Prop) (leafOK : LeafCls → Params → Prop) : Op → Prop
-  | .leaf _ c p => leafOK c p
-  | .wrap _ k o => WTExpr inv leafOK o ∧ WrapOK inv k o
-  | .comp _ ops => ops ≠ [] ∧ WTList inv leafOK ops ∧ Chain ops
-  | .cont _ k td ops => ops ≠ [] ∧ WTList inv leafOK ops ∧ ContOK k td ops
-def WTList (inv : Op → Prop) (leafOK : LeafCls → Params → Prop) : List Op → Prop
-  | [] => True
-  | o :: os => WTExpr inv leafOK o ∧ WTList inv leafOK os
-end
-
-theorem WTList_iff (inv : Op → Prop) (leafOK : LeafCls → Params → Prop) (ops : List Op) :
-    WTList inv leafOK ops ↔ ∀ o ∈ ops, WTExpr inv leafOK o := by
-  induction ops with
-  | nil => simp [WTList]
-  | cons o os ih => simp [WTList, ih]
-
-/-! ### chains -/
-
-theorem Chain_tail (o : Op) (os : List Op) (h : Chain (o :: os)) : Chain os := by
-  cases os with
-  | nil => trivial
-  | cons b rest => exact h.2
+(`WrapCls.isLazy`, `Chain`, `WrapOK`, `ContOK`, `WTExpr`, `WTList`, `WTList_iff`, `Chain_tail` are in
+FuraxProofs/Lemmas/WellFormed.lean.) -/
 
 theorem Chain_iff_WT {V : Type} (L : OpSem V) (ops : List Op) (hne : ops ≠ []) :
     Chain ops ↔ L.toSem.WT ops (inSLast ops) (outSHead ops) := by
@@ -219,8 +166,10 @@ structure RuleLaws {V : Type} (A : ArithSem V) where
     ∀ x, A.mem pr.inS x →
       A.den (.leaf ul .polarizer pl) x = A.den (.leaf ul .polarizer pl) (A.den (.leaf ur .hwp pr) x)
   /-- the four block rules: the container of the slot-wise products denotes the product of the containers
-  (C10: `row_diag_rule`, `diag_col_rule`, `diag_diag_rule`, `row_col_rule`) -/
+  (C10: `row_diag_rule`, `diag_col_rule`, `diag_diag_rule`, `row_col_rule`), for well-formed blocks and products
+  (a faithful model needs the blocks to be honest, which it only has for well-formed operands) -/
   block_law : ∀ lk rk res, BlockTriple lk rk res → ∀ ul ur u td lops rops prods,
+    WTList A.invertible leafOK lops → WTList A.invertible leafOK rops → WTList A.invertible leafOK prods →
     ContOK lk td lops → ContOK rk td rops → lops ≠ [] → ProdRel A lops rops prods →
     Op.inS (.cont ul lk td lops) = Op.outS (.cont ur rk td rops) →
     ∀ x, A.mem (Op.inS (.cont ur rk td rops)) x →
@@ -237,6 +186,9 @@ theorem WT_mkIdentity (s : Struct) : laws.WT (mkIdentity s) := by
 
 theorem WT_mkHomothety (v : Rat) (s : Struct) : laws.WT (mkHomothety v s) := by
   simp only [WT, mkHomothety, WTExpr]; exact laws.ok_homothety v s
+
+/-- a well-formed expression is structurally well formed (`WTExpr.structOK`) -/
+theorem WT_structOK (o : Op) (h : laws.WT o) : StructOK o := WTExpr.structOK h
 
 end RuleLaws
 
@@ -300,7 +252,7 @@ theorem inverseBinaryRule_sound : A.toOpSem.toSem.RuleSoundOn laws.WT inverseBin
           simp only [Except.ok.injEq, Option.some.injEq] at hf; subst hf
           obtain ⟨_, hok⟩ := (WT_wrap A laws u k o).mp hl
           obtain ⟨hsq, hinv⟩ := hok.1 hk
-          exact sound_nil A laws _ _ (by rw [ArithSem.wrap_outS]) (fun x hx => A.inv_left u k o hinv hk x hx)
+          exact sound_nil A laws _ _ (by rw [ArithSem.wrap_outS]) (fun x hx => A.inv_left u k o hinv hk hok.2.1 x hx)
         · simp at hf
       | _ => simp [isLazyInverse] at hlazy
     · rename_i hnl
@@ -317,7 +269,7 @@ theorem inverseBinaryRule_sound : A.toOpSem.toSem.RuleSoundOn laws.WT inverseBin
           obtain ⟨_, hok⟩ := (WT_wrap A laws u k o).mp hr
           obtain ⟨hsq, hinv⟩ := hok.1 hk
           exact sound_nil A laws _ _ (by rw [ArithSem.wrap_inS_sq u k o hsq, hsq])
-            (fun x hx => A.inv_right u k o hinv hk x hx)
+            (fun x hx => A.inv_right u k o hinv hk hok.2.1 x hx)
         · simp at hf
       | _ => simp [operator?] at hf
 
@@ -691,19 +643,6 @@ theorem WT_cont_iff (u : Nat) (k : ContCls) (td : TreeDef) (ops : List Op) :
 theorem WT_mkComp (ops : List Op) (hne : ops ≠ []) (hw : ∀ o ∈ ops, laws.WT o) (hc : Chain ops) :
     laws.WT (mkComp ops) := (WT_comp_iff A laws 0 ops).mpr ⟨hne, hw, hc⟩
 
-theorem Chain_append (xs ys : List Op) (hx : xs ≠ []) (hy : ys ≠ []) (h1 : Chain xs) (h2 : Chain ys)
-    (h : inSLast xs = outSHead ys) : Chain (xs ++ ys) := by
-  induction xs with
-  | nil => exact absurd rfl hx
-  | cons a as ih =>
-    cases as with
-    | nil =>
-      cases ys with
-      | nil => exact absurd rfl hy
-      | cons y ys' => exact ⟨by simpa [inSLast, outSHead] using h, h2⟩
-    | cons b bs =>
-      exact ⟨h1.1, ih (by simp) h1.2 (by simpa [inSLast] using h)⟩
-
 /-- a well-formed expression satisfies the top-level conditions `pyMatmul_den` asks for -/
 theorem WFtop_of_WT (o : Op) (h : laws.WT o) : ArithSem.WFtop o ∧ A.LazyInvertible o := by
   refine ⟨⟨?_, ?_, ?_⟩, ?_⟩
@@ -714,7 +653,7 @@ theorem WFtop_of_WT (o : Op) (h : laws.WT o) : ArithSem.WFtop o ∧ A.LazyInvert
   · intro u td ops he; subst he
     exact ((WT_cont_iff A laws _ _ _ _).mp h).1
   · intro u k o' he hk; subst he
-    exact (((WT_wrap A laws _ _ _).mp h).2.1 hk).2
+    exact ⟨(((WT_wrap A laws _ _ _).mp h).2.1 hk).2, ((WT_wrap A laws _ _ _).mp h).2.2.1⟩
 
 theorem baseMatmul_WT (a b r : Op) (ha : laws.WT a) (hb : laws.WT b)
     (h : baseMatmul a b = .ok (some r)) : laws.WT r := by
@@ -884,56 +823,12 @@ theorem prods_rel (lops rops prods : List Op) (hlen : lops.length = rops.length)
             (fun o ho => hl o (List.mem_cons_of_mem _ ho)) (fun o ho => hr o (List.mem_cons_of_mem _ ho)) hps
           obtain ⟨hfl, hfli⟩ := WFtop_of_WT A laws l hlw
           obtain ⟨hfr, hfri⟩ := WFtop_of_WT A laws r hrw
-          refine ⟨⟨A.pyMatmul_den l r p hfl hfr hfli hfri hp, hrel⟩, ?_⟩
+          refine ⟨⟨A.pyMatmul_den l r p hfl hfr (laws.WT_structOK r hrw) hfli hfri hp, hrel⟩, ?_⟩
           intro o ho
           rw [List.mem_cons] at ho
           rcases ho with rfl | ho
           · exact pyMatmul_WT A laws l r _ hlw hrw hp
           · exact hws o ho
-
-theorem inSHead_headD (ops : List Op) : inSHead ops = (inSList ops).headD default := by
-  cases ops <;> rfl
-
-theorem outSHead_headD (ops : List Op) : outSHead ops = (outSList ops).headD default := by
-  cases ops <;> rfl
-
-theorem mem_inSList (ops : List Op) (s : Struct) : s ∈ inSList ops ↔ ∃ o ∈ ops, Op.inS o = s := by
-  induction ops with
-  | nil => simp [inSList]
-  | cons o os ih => simp [inSList, ih, eq_comm]
-
-theorem mem_outSList (ops : List Op) (s : Struct) : s ∈ outSList ops ↔ ∃ o ∈ ops, Op.outS o = s := by
-  induction ops with
-  | nil => simp [outSList]
-  | cons o os ih => simp [outSList, ih, eq_comm]
-
-theorem allIn_iff (ops : List Op) :
-    (∀ o ∈ ops, Op.inS o = inSHead ops) ↔ ∀ s ∈ inSList ops, s = (inSList ops).headD default := by
-  rw [← inSHead_headD]
-  constructor
-  · intro h s hs
-    obtain ⟨o, ho, rfl⟩ := (mem_inSList ops s).mp hs
-    exact h o ho
-  · intro h o ho
-    exact h _ ((mem_inSList ops _).mpr ⟨o, ho, rfl⟩)
-
-theorem allOut_iff (ops : List Op) :
-    (∀ o ∈ ops, Op.outS o = outSHead ops) ↔ ∀ s ∈ outSList ops, s = (outSList ops).headD default := by
-  rw [← outSHead_headD]
-  constructor
-  · intro h s hs
-    obtain ⟨o, ho, rfl⟩ := (mem_outSList ops s).mp hs
-    exact h o ho
-  · intro h o ho
-    exact h _ ((mem_outSList ops _).mpr ⟨o, ho, rfl⟩)
-
-theorem allIn_congr (ops ops' : List Op) (h : inSList ops' = inSList ops)
-    (ha : ∀ o ∈ ops, Op.inS o = inSHead ops) : ∀ o ∈ ops', Op.inS o = inSHead ops' := by
-  rw [allIn_iff] at ha ⊢; rw [h]; exact ha
-
-theorem allOut_congr (ops ops' : List Op) (h : outSList ops' = outSList ops)
-    (ha : ∀ o ∈ ops, Op.outS o = outSHead ops) : ∀ o ∈ ops', Op.outS o = outSHead ops' := by
-  rw [allOut_iff] at ha ⊢; rw [h]; exact ha
 
 /-- the four block rules (`AbstractBlockDiagonalRule.apply`), given that the recursive `reduce` call is sound -/
 theorem blockRule_sound (red : Op → Except PyErr Op) (hred : RedSound A laws red) (name : String)
@@ -995,7 +890,8 @@ theorem blockRule_sound (red : Op → Except PyErr Op) (hred : RedSound A laws r
           obtain ⟨hw', hi', ho', hd'⟩ := hred _ _ hcw hc'
           refine sound_single A laws _ _ c' hw' (by rw [hi', hsI]) (by rw [ho', hsO]) (fun x hx => ?_)
           rw [hd' x (by rw [hsI]; exact hx)]
-          exact laws.block_law lk rk res ht ul ur 0 ltd lops rops prods hlok hrok hlne hrel hlr x hx
+          exact laws.block_law lk rk res ht ul ur 0 ltd lops rops prods ((WTList_iff _ _ _).mpr hlw)
+            ((WTList_iff _ _ _).mpr hrw) ((WTList_iff _ _ _).mpr hpw) hlok hrok hlne hrel hlr x hx
     · simp at hf
   · simp at hf
 
@@ -1022,28 +918,36 @@ theorem binaryRules_sound (red : Op → Except PyErr Op) (hred : RedSound A laws
   · exact quRotationHWPRule_sound A laws
   · exact linearPolarizerHWPRule_sound A laws
 
-/-- The unrelativised form asked for originally follows under the (unsatisfiable, see
-`inverseBinaryRule_not_RuleSound`) idealisation that EVERY operator term is well formed.  Recorded only to
-show how the relativised statement specialises; do not use. -/
+/-- The unrelativised form asked for originally (`Sem.RuleSound`: soundness on all structurally well-formed
+operands) follows under the (unsatisfiable) idealisation that EVERY operator term is well formed.  Recorded only
+to show how the relativised statement specialises; do not use. -/
 theorem binaryRules_sound_of_total (hall : ∀ o, laws.WT o) (red : Op → Except PyErr Op)
     (hred : RedSound A laws red) : ∀ ru ∈ binaryRules red, A.toOpSem.toSem.RuleSound ru :=
-  fun ru hm => A.toOpSem.toSem.RuleSound_of_RuleSoundOn laws.WT hall ru (binaryRules_sound A laws red hred ru hm)
+  fun ru hm => A.toOpSem.toSem.RuleSound_of_RuleSoundOn laws.WT hall laws.WT_structOK ru
+    (binaryRules_sound A laws red hred ru hm)
 
-/-- **`RuleSound` is false for `InverseBinaryRule`, in every semantics**: the rule fires on the pair
-`o, DiagonalInverseOperator(o)` for ANY `o` with a Python identity (the only test is `right.operator is left`)
-and returns the empty chain.  For a non-square `o : s → t` the pair is well typed
-(`in(o) = s = out(DiagonalInverseOperator(o))`) and maps `in(DiagonalInverseOperator(o)) = s` to `out(o) = t`,
-but the empty chain is only typed from `s` to `s`.  Hence the relativisation to `WTExpr`
-(where `DiagonalInverseOperator` wraps a square operand). -/
+/-- **Soundness on ALL operand pairs is false for `InverseBinaryRule`, in every semantics**
+(`RuleSoundOn (fun _ => True)` is what `Sem.RuleSound` meant before the law `honest` was restricted to
+structurally well-formed operators): the rule fires on the pair `o, DiagonalInverseOperator(o)` for ANY `o` with
+a Python identity (the only test is `right.operator is left`) and returns the empty chain.  For a non-square
+`o : s → t` the pair is well typed (`in(o) = s = out(DiagonalInverseOperator(o))`) and maps
+`in(DiagonalInverseOperator(o)) = s` to `out(o) = t`, but the empty chain is only typed from `s` to `s`.  Hence
+the relativisation to well-formed operands (where `DiagonalInverseOperator` wraps a square operand). -/
 theorem inverseBinaryRule_not_RuleSound (s t : Struct) (hst : s ≠ t) :
-    ¬ A.toOpSem.toSem.RuleSound inverseBinaryRule := by
+    ¬ A.toOpSem.toSem.RuleSoundOn (fun _ => True) inverseBinaryRule := by
   intro h
   let o : Op := .leaf 1 .dense { inS := s, outS := t }
   have hf : inverseBinaryRule.fire o (.wrap 2 .diagInv o) = .ok (some []) := by
     simp [inverseBinaryRule, o, isLazyInverse, operator?, same, Op.uid, Op.beq]
-  have := (h o (.wrap 2 .diagInv o) [] hf (by simp [o, Op.inS, Op.outS])).1
+  have := (h o (.wrap 2 .diagInv o) [] trivial trivial hf (by simp [o, Op.inS, Op.outS])).2.1
   simp [Sem.WT, o, Op.inS, Op.outS, squareLeaf] at this
   exact hst this
+
+/-- the offending pair is excluded by structural well-formedness: a `DiagonalInverseOperator` (any lazy inverse)
+wraps a square operand -/
+theorem StructOK_lazy_square (u : Nat) (k : WrapCls) (o : Op) (hk : k.isLazy)
+    (h : StructOK (.wrap u k o)) : Op.inS o = Op.outS o :=
+  (((StructOK_wrap_iff u k o).mp h).2.1 hk).1
 
 end Rules
 
